@@ -144,7 +144,7 @@ fn run_scenario(out: &mut Out, st: &mut Stats, world: &World, tx: &TxSpec, repla
                     }
                 }
             }
-            coq_steps.push(format!("FRet {} {} {} {} {} {} {}", coq_bool(m == "RETD"), coq_regs64(rb), coq_regs64(ra), fv[0], fv[1], d_after, changed));
+            coq_steps.push(format!("FRet {} {} {} {} {} {} {}", coq_bool(m == "RETD"), s.fields()[0], coq_regs64(rb), coq_regs64(ra), fv[1], d_after, changed));
             sig.push_str(&format!("R{}:{};", d_after, if m == "RETD" { fv[1] } else { 0 }));
         } else {
             if d_after != s.frames_before.len() && !(m == "CALL") {
